@@ -544,29 +544,40 @@ def wire_rule(ctx, r):
             r.ok("searcher|line_terminator", "crlf → CRLF, null_data → NUL, else LF (4 rows)", fn=g)
         else:
             r.bad("searcher|line_terminator", "searcher line terminator: %s" % detail, fn=g, construct="line_terminator")
-    pt = sc.get("passthru", [])
-    if len(pt) == 1 and W.const_val(ebg.operand(pt[0].args[1])) == 1 and \
-            W.guard_variant(g, ebg, [pt[0].bb], lambda e: mentions_field(e, HI, "context"), "Passthru"):
+    # value table: self.context ∈ {Passthru, Limited(l)} with l.get() = (3, 5); what the searcher ends up with is the last
+    # value handed to each setter, or Config::default()'s when the setter is not called
+    from ..flow import Sccp as _Sccp2, combinator_model as _cm2
+    SCFG_ = "grep_searcher::searcher::Config"
+    eff = {}
+    for mode in ("Passthru", "Limited"):
+        seen = {}
+
+        def fm2(owner, name, mode=mode):
+            return V(mode, None) if owner == HI and name == "context" else None
+
+        def inner2(call, argv, seen=seen):
+            if call.path.endswith("ContextModeLimited::get"):
+                return ("t", (I(3), I(5)))
+            for nm_ in ("passthru", "before_context", "after_context"):
+                if call.path == SB + "::" + nm_:
+                    seen[nm_] = argv[1] if len(argv) > 1 else None
+            return None
+        _Sccp2(g, call_model=_cm2(facts, inner2, field_model=fm2), field_model=fm2).run([(0, {})])
+        eff[mode] = {nm_: seen.get(nm_, W.struct_default(facts, SCFG_, nm_))
+                     for nm_ in ("passthru", "before_context", "after_context")}
+        eff[mode]["called"] = set(seen)
+    if sc.get("passthru") and eff["Passthru"]["passthru"] == I(1) and eff["Limited"]["passthru"] == I(0):
         r.ok("searcher|passthru", "passthru(true) under ContextMode::Passthru", fn=g)
     else:
         r.bad("searcher|passthru", "passthru wiring", fn=g)
-    for name in ("before_context", "after_context"):
-        cs = sc.get(name, [])
-        if len(cs) == 1 and W.guard_variant(g, ebg, [cs[0].bb], lambda e: mentions_field(e, HI, "context"), "Limited"):
+    for name, want in (("before_context", I(3)), ("after_context", I(5))):
+        if sc.get(name) and name in eff["Limited"]["called"] and eff["Limited"][name] is not None:
             r.ok("searcher|" + name, "%s under ContextMode::Limited" % name, fn=g)
         else:
             r.bad("searcher|" + name, "%s wiring" % name, fn=g)
-    ba = [c for c in g.calls_to(SB + "::before_context")]
-    aa = [c for c in g.calls_to(SB + "::after_context")]
-    if ba and aa:
-        eb_, ea_ = ebg.operand(ba[0].args[1]), ebg.operand(aa[0].args[1])
-        # (before, after) = limited.get(): tuple fields 0 and 1 respectively
-        def tup_idx(e):
-            for x in walk(e):
-                if x.k == "field" and x[2] == "(tuple)":
-                    return x[3]
-            return None
-        if tup_idx(eb_) == "0" and tup_idx(ea_) == "1":
+    if sc.get("before_context") and sc.get("after_context"):
+        # (before, after) = limited.get(): components 0 and 1 respectively
+        if eff["Limited"]["before_context"] == I(3) and eff["Limited"]["after_context"] == I(5):
             r.ok("searcher|context-order", "before ← get().0, after ← get().1", fn=g)
         else:
             r.bad("searcher|context-order", "before/after context counts are swapped or not taken from limited.get()", fn=g)
